@@ -201,7 +201,10 @@ fn zero_anchor_case(c: usize, reach: u64, n: usize, pre: usize, next: u64, split
         b.op(format!("consume v0 {}", MAXU));
     }
     let t = b.next_tag();
-    b.op(format!("read_n v0 {} 4 {} d{}", n, run_token(t, n + 4), n));
+    // every other case asks for more than the reader delivers: the unread tail is handed back
+    let extra = [0usize, 1, 5000, 70000][(next as usize / 4 + n) % 4];
+    b.op(format!("read_n v0 {} 4 {} d{}", n + extra, run_token(t, n + 4), n));
+    b.sim.ensure(n + extra);
     b.sim.alloc(n);
     if split {
         b.op(format!("s_split s0 {}", n / 2));
@@ -231,7 +234,9 @@ fn detached_case(c: usize, reach: u64, n: usize, k: usize, drain: u64) -> Vec<St
     let mut b = B::new();
     b.reach(c, reach);
     let t = b.next_tag();
-    b.op(format!("read_n v0 {} 4 {} d{}", n, run_token(t, n + 4), n));
+    let extra = [0usize, 4097, 1, 70000][(drain as usize + n) % 4];
+    b.op(format!("read_n v0 {} 4 {} d{}", n + extra, run_token(t, n + 4), n));
+    b.sim.ensure(n + extra);
     b.sim.alloc(n);
     b.op(format!("s_split s0 {}", n / 3));
     b.op("s_drop s1".into());
@@ -244,8 +249,9 @@ fn detached_case(c: usize, reach: u64, n: usize, k: usize, drain: u64) -> Vec<St
     b.ops
 }
 
-/// (4) allocations that fit exactly / miss by one / equal the chunk / exceed it, one after another.
-fn exact_fit_case(c: usize, reach: u64) -> Vec<String> {
+/// (4) allocations that fit exactly / miss by one / equal the chunk / exceed it, one after another
+/// (`light`: only the exact fit and the one-byte placeholder after it).
+fn exact_fit_case(c: usize, reach: u64, light: bool) -> Vec<String> {
     let mut b = B::new();
     b.reach(c, reach);
     b.copy(100);
@@ -255,9 +261,11 @@ fn exact_fit_case(c: usize, reach: u64) -> Vec<String> {
     b.op("register v0 00".into());
     b.sim.alloc(1);
     b.op("backfill v0 b0 5a".into());
-    b.copy(c);
-    b.copy(c + 1);
-    b.op(format!("advance v0 {}", c + 50));
+    if !light {
+        b.copy(c);
+        b.copy(c + 1);
+        b.op(format!("advance v0 {}", c + 50));
+    }
     b.copy(1);
     b.op("read v1 100".into());
     b.op(format!("consume v0 {}", MAXU));
@@ -475,6 +483,7 @@ impl ScaleIovecFamily {
             snapshot_case(mib, 2, 1, 0, 3, 0, 100),          // H  growth sequence, then the snapshot
             zero_anchor_case(mib, 0, 300, 100, 1, false),    // H
             detached_case(mib, 0, 400, 1, 0),                // H
+            exact_fit_case(mib, 0, true),                    // H
             snapshot_case(mib, 0, 1, 2, 1, 1, 1),
             snapshot_case(mib, 0, 0, 0, 0, 0, 100),
             zero_anchor_case(mib, 0, 65, 0, 2, true),
@@ -554,7 +563,7 @@ impl Family for ScaleIovecFamily {
                     cases.push(detached_case(*c, *reach, 3000, 70, j + 2));
                 }
                 if thorough || *reach == 0 {
-                    cases.push(exact_fit_case(*c, *reach));
+                    cases.push(exact_fit_case(*c, *reach, false));
                 }
             }
         }
@@ -676,7 +685,7 @@ impl Family for ScaleIovecFamily {
                 }
                 Self::wrap_scoped(ops)
             }
-            10 => exact_fit_case(c, reach),
+            10 => exact_fit_case(c, reach, !thorough),
             _ => {
                 let n = near_of(rng, &[2048usize, 4096], 3);
                 many_slices_case(n, rng.below(2), rng.range(65, 70) as usize, rng.below(6), false)
